@@ -448,6 +448,18 @@ Walk:
 		}
 
 		if charsMatched < len(path) {
+			// Tsr recommendation: remove the extra trailing slash (got an exact match with a leaf and only a slash
+			// remains). This must be evaluated before going deeper, since a wildcard child may consume the walk
+			// without ever coming back to this leaf.
+			if !tsr && current.isLeaf() && charsMatchedInNodeFound == len(current.key) && len(path)-charsMatched == 1 && path[charsMatched] == slashDelim {
+				tsr = true
+				n = current
+				// Save also a copy of the matched params, it should not allocate anything in most case.
+				if !lazy {
+					copyWithResize(c.tsrParams, c.params)
+				}
+			}
+
 			// linear search
 			idx := -1
 			for i := 0; i < len(current.childKeys); i++ {
